@@ -83,6 +83,13 @@ Reject == /\ E.ev = "h3_reset" /\ E.code = H3_REQUEST_REJECTED
           /\ UNCHANGED <<scn, arrived, ctrlOut, peerCtl, shown, live, everLive, none, errd>>
           /\ IF Prop = "C08" /\ ~(C08Reject(E.sid) /\ C08InvOf(ctrlOut, shown, rejected \cup {E.sid})) THEN Fail(<<"C08: stream below the announced identifier refused", E.sid>>) ELSE Keep
 
+\* a request that is refused is refused with H3_REQUEST_REJECTED in both directions: whatever STOP_SENDING a request stream that was never
+\* shown to the application gets (explicitly, or implicitly when its receiving half is let go while the peer is still sending) carries that code
+IsStop == E.ev = "h3_stop" /\ IsReqSid(E.sid) /\ E.sid \notin shown
+Stop == /\ IsStop
+        /\ UNCHANGED <<scn, arrived, ctrlOut, peerCtl, shown, rejected, live, everLive, none, errd>>
+        /\ IF Prop = "C08" /\ E.code # H3_REQUEST_REJECTED THEN Fail(<<"C08: refused request stopped with another code", E.sid, E.code>>) ELSE Keep
+
 TaskStart == /\ E.ev = "task_start" /\ TaskSid(E.task) # -1
              /\ live' = [live EXCEPT ![TaskSid(E.task)] = @ + 1] /\ everLive' = everLive \cup {TaskSid(E.task)}
              /\ UNCHANGED <<scn, arrived, ctrlOut, peerCtl, shown, rejected, none, errd>> /\ Keep
@@ -104,11 +111,11 @@ Quiesce == /\ E.ev = "quiesce"
 
 Other == /\ ~(E.ev \in {"reset", "step", "panic", "late", "livelock", "harness_panic", "quiesce"})
          /\ ~IsCtl /\ ~(E.ev = "ret" /\ E.api = "accept")
-         /\ ~(E.ev = "h3_reset" /\ E.code = H3_REQUEST_REJECTED)
+         /\ ~(E.ev = "h3_reset" /\ E.code = H3_REQUEST_REJECTED) /\ ~IsStop
          /\ ~(E.ev \in {"task_start", "task_end"} /\ TaskSid(E.task) # -1)
          /\ UNCHANGED <<scn, arrived, ctrlOut, peerCtl, shown, rejected, live, everLive, none, errd>> /\ Keep
 
-Next == l <= Len(Rec) /\ l' = l + 1 /\ (Reset \/ EnvStep \/ Wrote \/ AcceptRet \/ Reject \/ TaskStart \/ TaskEnd \/ Bad \/ Quiesce \/ Other)
+Next == l <= Len(Rec) /\ l' = l + 1 /\ (Reset \/ EnvStep \/ Wrote \/ AcceptRet \/ Reject \/ Stop \/ TaskStart \/ TaskEnd \/ Bad \/ Quiesce \/ Other)
 Spec == Init /\ [][Next]_vars
 TraceAccepted == TLCGet("stats").diameter - 1 = Len(Rec)
 =============================================================================
